@@ -107,185 +107,192 @@ static void judge(const char* alg, unsigned N, uint64_t idx, const Obs& lib, con
   R.expect(api, bucket(N), idx, h, lib == ref, dump, msg);
 }
 
-// run body(lib?) twice on fresh copies of the prepared buffers
-template <typename T, typename Prep, typename Lib, typename Ref>
-static void versus(const char* alg, unsigned N, uint64_t idx, Prep&& prep, Lib&& lib, Ref&& ref, const char* msg = "") {
-  Obs ol, orf;
-  {
-    Buf<T> a, b, c; prep(a, b, c); LOG.clear();
-    ol.ret = lib(a, b, c); a.image(ol.img); b.image(ol.img); c.image(ol.img); ol.log = LOG;
+// ---- logging functors (namespace scope: one type per T, not per call site: compile time)
+template <typename T> struct FU { T operator()(const T& x) const { lg('u', Tr<T>::bits(x), 0); return Tr<T>::f1(x); } };
+template <typename T> struct FB { T operator()(const T& x, const T& y) const { lg('b', Tr<T>::bits(x), Tr<T>::bits(y)); return Tr<T>::f2(x, y); } };
+template <typename T> struct FB2 { T operator()(const T& x, const T& y) const { lg('c', Tr<T>::bits(x), Tr<T>::bits(y)); return Tr<T>::f2(y, x); } };
+template <typename T> struct FBswap { T operator()(const T& acc, const T& x) const { return FB<T>()(x, acc); } };
+template <typename T> struct FLESS { bool operator()(const T& x, const T& y) const { lg('L', Tr<T>::bits(x), Tr<T>::bits(y)); return Tr<T>::less(x, y); } };
+template <typename T> struct FLESSswap { bool operator()(const T& x, const T& y) const { return FLESS<T>()(y, x); } };
+template <typename T> struct FEQ { bool operator()(const T& x, const T& y) const { lg('e', Tr<T>::bits(x), Tr<T>::bits(y)); return Tr<T>::bits(x) == Tr<T>::bits(y); } };
+template <typename T> struct FMUT { void operator()(T& x) const { lg('f', Tr<T>::bits(x), 0); x = Tr<T>::f1(x); } };
+template <typename T> struct Gen {
+  uint64_t s;
+  T operator()() { s = s * 6364136223846793005ull + 1442695040888963407ull; lg('g', s, 0); return Tr<T>::from(s >> 20); }
+};
+
+// ---- one case: inputs shared by the fsalgo run and the std run
+template <typename T>
+struct Cx {
+  unsigned N;
+  std::array<T, 64> va, vb;
+  T init;
+  int kdiff;  // position where the second range differs (equal), -1: ranges identical
+  uint64_t gseed;
+};
+template <typename T> using Fn = uint64_t (*)(Buf<T>&, Buf<T>&, Buf<T>&, const Cx<T>&);
+template <typename T> static uint64_t off(const T* it, const Buf<T>& b) { return uint64_t(it - b.data()); }
+template <typename T> static const T* cp(Buf<T>& b) { return b.data(); }
+
+enum Alg { COPY, COPY_OVL, FILL, TR_U, TR_U_INPLACE, TR_B, ACC_PLUS, ACC_OP_STD, ACC_OP_EF, IP, IP_OPS, IP_NOINIT, EQ_OP, EQ_PRED,
+           FOR_EACH, GENERATE, IOTA, MIN_LT, MIN_COMP, MAX_GT, MAX_COMP_STD, MAX_COMP_EF, SWAP, NALG };
+static const char* ALGN[NALG] = {"copy", "copy/overlap-left", "fill", "transform(unary)", "transform(unary)/in-place", "transform(binary)",
+                                 "accumulate(+)", "accumulate(op):std-argument-order", "accumulate(op):element-first",
+                                 "inner_product(+,*)", "inner_product(op1,op2)", "inner_product<T>(no init)", "equal(==)", "equal(pred)",
+                                 "for_each", "generate", "iota", "min_element(<)", "min_element(comp)", "max_element(>)",
+                                 "max_element(comp):std-comparator-meaning", "max_element(comp):element-first", "swap_ranges"};
+static const char* ALGMSG[NALG] = {"", "", "", "", "", "", "std::accumulate computes acc + *it",
+                                   "same functor handed to both; std::accumulate calls op(acc, *it)",
+                                   "std gets op with swapped arguments (the convention documented in accumulate.hxx)", "", "",
+                                   "reference: first product as initial value, then std::inner_product on the rest", "", "", "", "", "", "", "", "",
+                                   "same 'less' comparator handed to both; std::max_element(first,last,comp) evaluates comp(best, *it)",
+                                   "fsalgo gets comp(new, best) = less(best, new): the convention used inside TFEL (abs_max, eigen-solvers)", ""};
+
+// the fsalgo side: N is a template argument
+template <unsigned N, typename T>
+struct Lib {
+  using B = Buf<T>; using C = const Cx<T>&;
+  static uint64_t copy(B& p, B& q, B&, C) { return off(fsa::copy<N>::exe(cp(p), q.data()), q); }
+  static uint64_t copy_ovl(B& p, B&, B&, C) { return off(fsa::copy<N>::exe(p.data(), p.data() - 1), p); }
+  static uint64_t fill(B& p, B&, B&, C c) { fsa::fill<N>::exe(p.data(), c.init); return 0; }
+  static uint64_t tr_u(B& p, B& q, B&, C) { return off(fsa::transform<N>::exe(cp(p), q.data(), FU<T>()), q); }
+  static uint64_t tr_ui(B& p, B&, B&, C) { return off(fsa::transform<N>::exe(p.data(), p.data(), FU<T>()), p); }
+  static uint64_t tr_b(B& p, B& q, B& r, C) { return off(fsa::transform<N>::exe(cp(p), cp(q), r.data(), FB<T>()), r); }
+  static uint64_t acc_plus(B& p, B&, B&, C c) { return Tr<T>::bits(fsa::accumulate<N>::exe(cp(p), c.init)); }
+  static uint64_t acc_op(B& p, B&, B&, C c) { return Tr<T>::bits(fsa::accumulate<N>::exe(cp(p), c.init, FB<T>())); }
+  static uint64_t ip(B& p, B& q, B&, C c) { return Tr<T>::bits(fsa::inner_product<N>::exe(cp(p), cp(q), c.init)); }
+  static uint64_t ip_ops(B& p, B& q, B&, C c) { return Tr<T>::bits(fsa::inner_product<N>::exe(cp(p), cp(q), c.init, FB<T>(), FB2<T>())); }
+  static uint64_t ip_noinit(B& p, B& q, B&, C) {
+    if constexpr (N >= 1) return Tr<T>::bits(fsa::inner_product<N>::template exe<T>(cp(p), cp(q)));
+    else return 0;
   }
-  {
-    Buf<T> a, b, c; prep(a, b, c); LOG.clear();
-    orf.ret = ref(a, b, c); a.image(orf.img); b.image(orf.img); c.image(orf.img); orf.log = LOG;
+  static uint64_t eq_op(B& p, B& q, B&, C) { return uint64_t(fsa::equal<N>::exe(cp(p), cp(q))); }
+  static uint64_t eq_pred(B& p, B& q, B&, C) { return uint64_t(fsa::equal<N>::exe(cp(p), cp(q), FEQ<T>())); }
+  static uint64_t for_each(B& p, B&, B&, C) { FMUT<T> f; fsa::for_each<N>::exe(p.data(), f); return 0; }
+  static uint64_t generate(B& p, B&, B&, C c) { fsa::generate<N>::exe(p.data(), Gen<T>{c.gseed}); return 0; }
+  static uint64_t iota(B& p, B&, B&, C c) { fsa::iota<N>::exe(p.data(), c.init); return 0; }
+  static uint64_t min_lt(B& p, B&, B&, C) { return off(fsa::min_element<N>::exe(cp(p)), p); }
+  static uint64_t min_comp(B& p, B&, B&, C) { return off(fsa::min_element<N>::exe(cp(p), FLESS<T>()), p); }
+  static uint64_t max_gt(B& p, B&, B&, C) { auto r = off(fsa::max_element<N>::exe(cp(p)), p); LOG.clear(); return r; }
+  static uint64_t max_comp(B& p, B&, B&, C) { return off(fsa::max_element<N>::exe(cp(p), FLESS<T>()), p); }
+  static uint64_t max_comp_ef(B& p, B&, B&, C) { return off(fsa::max_element<N>::exe(cp(p), FLESSswap<T>()), p); }
+  static uint64_t swap(B& p, B& q, B&, C) { return off(fsa::swap_ranges<N>::exe(p.data(), q.data()), q); }
+  static uint64_t copy_list(std::list<T>& src, std::list<T>& dst) {
+    return uint64_t(std::distance(dst.begin(), fsa::copy<N>::exe(src.cbegin(), dst.begin())));
   }
-  judge<T>(alg, N, idx, ol, orf, msg);
+  static const Fn<T>* table() {
+    static const Fn<T> t[NALG] = {copy, copy_ovl, fill, tr_u, tr_ui, tr_b, acc_plus, acc_op, acc_op, ip, ip_ops, ip_noinit, eq_op, eq_pred,
+                                  for_each, generate, iota, min_lt, min_comp, max_gt, max_comp, max_comp_ef, swap};
+    return t;
+  }
+};
+
+// the std side: N is a run-time value
+template <typename T>
+struct Ref {
+  using B = Buf<T>; using C = const Cx<T>&;
+  static uint64_t copy(B& p, B& q, B&, C c) { return off(std::copy(cp(p), cp(p) + c.N, q.data()), q); }
+  static uint64_t copy_ovl(B& p, B&, B&, C c) { return off(std::copy(p.data(), p.data() + c.N, p.data() - 1), p); }
+  static uint64_t fill(B& p, B&, B&, C c) { std::fill(p.data(), p.data() + c.N, c.init); return 0; }
+  static uint64_t tr_u(B& p, B& q, B&, C c) { return off(std::transform(cp(p), cp(p) + c.N, q.data(), FU<T>()), q); }
+  static uint64_t tr_ui(B& p, B&, B&, C c) { return off(std::transform(p.data(), p.data() + c.N, p.data(), FU<T>()), p); }
+  static uint64_t tr_b(B& p, B& q, B& r, C c) { return off(std::transform(cp(p), cp(p) + c.N, cp(q), r.data(), FB<T>()), r); }
+  static uint64_t acc_plus(B& p, B&, B&, C c) { return Tr<T>::bits(std::accumulate(cp(p), cp(p) + c.N, c.init)); }
+  static uint64_t acc_op(B& p, B&, B&, C c) { return Tr<T>::bits(std::accumulate(cp(p), cp(p) + c.N, c.init, FB<T>())); }
+  static uint64_t acc_op_ef(B& p, B&, B&, C c) { return Tr<T>::bits(std::accumulate(cp(p), cp(p) + c.N, c.init, FBswap<T>())); }
+  static uint64_t ip(B& p, B& q, B&, C c) { return Tr<T>::bits(std::inner_product(cp(p), cp(p) + c.N, cp(q), c.init)); }
+  static uint64_t ip_ops(B& p, B& q, B&, C c) { return Tr<T>::bits(std::inner_product(cp(p), cp(p) + c.N, cp(q), c.init, FB<T>(), FB2<T>())); }
+  static uint64_t ip_noinit(B& p, B& q, B&, C c) {
+    if (c.N == 0) return 0;
+    const T i0 = cp(p)[0] * cp(q)[0];
+    return Tr<T>::bits(std::inner_product(cp(p) + 1, cp(p) + c.N, cp(q) + 1, i0));
+  }
+  static uint64_t eq_op(B& p, B& q, B&, C c) { return uint64_t(std::equal(cp(p), cp(p) + c.N, cp(q))); }
+  static uint64_t eq_pred(B& p, B& q, B&, C c) { return uint64_t(std::equal(cp(p), cp(p) + c.N, cp(q), FEQ<T>())); }
+  static uint64_t for_each(B& p, B&, B&, C c) { std::for_each(p.data(), p.data() + c.N, FMUT<T>()); return 0; }
+  static uint64_t generate(B& p, B&, B&, C c) { std::generate(p.data(), p.data() + c.N, Gen<T>{c.gseed}); return 0; }
+  static uint64_t iota(B& p, B&, B&, C c) { std::iota(p.data(), p.data() + c.N, c.init); return 0; }
+  static uint64_t min_lt(B& p, B&, B&, C c) { return off(std::min_element(cp(p), cp(p) + c.N), p); }
+  static uint64_t min_comp(B& p, B&, B&, C c) { return off(std::min_element(cp(p), cp(p) + c.N, FLESS<T>()), p); }
+  // built-in '<' vs '>' leave no log; for the struct type they are distinct logged operators, so
+  // only the position is compared for max_element without comparator (log cleared on both sides)
+  static uint64_t max_gt(B& p, B&, B&, C c) { auto r = off(std::max_element(cp(p), cp(p) + c.N), p); LOG.clear(); return r; }
+  static uint64_t max_comp(B& p, B&, B&, C c) { return off(std::max_element(cp(p), cp(p) + c.N, FLESS<T>()), p); }
+  static uint64_t swap(B& p, B& q, B&, C c) { return off(std::swap_ranges(p.data(), p.data() + c.N, q.data()), q); }
+  static const Fn<T>* table() {
+    static const Fn<T> t[NALG] = {copy, copy_ovl, fill, tr_u, tr_ui, tr_b, acc_plus, acc_op, acc_op_ef, ip, ip_ops, ip_noinit, eq_op, eq_pred,
+                                  for_each, generate, iota, min_lt, min_comp, max_gt, max_comp, max_comp, swap};
+    return t;
+  }
+};
+
+template <typename T>
+static void prep(const Cx<T>& c, int alg, Buf<T>& p, Buf<T>& q, Buf<T>& r) {
+  p.guards(1); q.guards(2); r.guards(3);
+  for (unsigned k = 0; k < c.N; ++k) { p.data()[k] = c.va[k]; q.data()[k] = c.vb[k]; }
+  if (alg == EQ_OP || alg == EQ_PRED) {
+    for (unsigned k = 0; k < c.N; ++k) q.data()[k] = c.va[k];
+    if (c.kdiff >= 0) q.data()[c.kdiff] = Tr<T>::f1(c.va[size_t(c.kdiff)]);
+  }
 }
 
-template <unsigned N, typename T>
-static void all(const vf::Args& a, uint64_t idx) {
+template <typename T>
+static void run_case(const vf::Args& a, uint64_t idx, unsigned N, const Fn<T>* lib, uint64_t (*lib_list)(std::list<T>&, std::list<T>&)) {
   using X = Tr<T>;
   vf::Rng g(a.seed, 1800 + N * 8 + sizeof(T), idx);
+  Cx<T> c;
+  c.N = N;
   const bool narrow = g.coin();
-  std::array<T, 64> va, vb;
-  for (unsigned k = 0; k < 64; ++k) { va[k] = X::rnd(g, narrow); vb[k] = X::rnd(g, narrow); }
-  const T init = X::rnd(g, false);
-  const int kdiff = N ? g.irange(-1, int(N) - 1) : -1;  // position where the second range differs (equal)
-  auto prep = [&](Buf<T>& p, Buf<T>& q, Buf<T>& r) {
-    p.guards(1); q.guards(2); r.guards(3);
-    for (unsigned k = 0; k < N; ++k) { p.data()[k] = va[k]; q.data()[k] = vb[k]; }
-  };
-  auto off = [](const T* it, const Buf<T>& b) { return uint64_t(it - b.data()); };
-  auto U = [](const T& x) { lg('u', X::bits(x), 0); return X::f1(x); };
-  auto B = [](const T& x, const T& y) { lg('b', X::bits(x), X::bits(y)); return X::f2(x, y); };
-  auto B2 = [](const T& x, const T& y) { lg('c', X::bits(x), X::bits(y)); return X::f2(y, x); };
-  auto LESS = [](const T& x, const T& y) { lg('L', X::bits(x), X::bits(y)); return X::less(x, y); };
-  auto EQ = [](const T& x, const T& y) { lg('e', X::bits(x), X::bits(y)); return X::bits(x) == X::bits(y); };
-  // ---- copy (pointers, overlapping shift-left, list iterators)
-  versus<T>("copy", N, idx, prep,
-            [&](Buf<T>& p, Buf<T>& q, Buf<T>&) { return off(fsa::copy<N>::exe(static_cast<const T*>(p.data()), q.data()), q); },
-            [&](Buf<T>& p, Buf<T>& q, Buf<T>&) { return off(std::copy(static_cast<const T*>(p.data()), static_cast<const T*>(p.data()) + N, q.data()), q); });
-  versus<T>("copy/overlap-left", N, idx, prep,
-            [&](Buf<T>& p, Buf<T>&, Buf<T>&) { return off(fsa::copy<N>::exe(p.data(), p.data() - 1), p); },
-            [&](Buf<T>& p, Buf<T>&, Buf<T>&) { return off(std::copy(p.data(), p.data() + N, p.data() - 1), p); });
-  {
+  for (unsigned k = 0; k < 64; ++k) { c.va[k] = X::rnd(g, narrow); c.vb[k] = X::rnd(g, narrow); }
+  c.init = X::rnd(g, false);
+  c.kdiff = N ? g.irange(-1, int(N) - 1) : -1;
+  c.gseed = g.u64();
+  const Fn<T>* ref = Ref<T>::table();
+  for (int alg = 0; alg < NALG; ++alg) {
     Obs ol, orf;
     for (int w = 0; w < 2; ++w) {
-      std::list<T> src(va.begin(), va.begin() + N), dst;
-      for (unsigned k = 0; k < N + 3; ++k) dst.push_back(X::guard(int(k)));
-      auto it = w == 0 ? fsa::copy<N>::exe(src.cbegin(), dst.begin()) : std::copy(src.cbegin(), src.cend(), dst.begin());
+      Buf<T> p, q, r; prep(c, alg, p, q, r); LOG.clear();
       Obs& o = w == 0 ? ol : orf;
-      o.ret = uint64_t(std::distance(dst.begin(), it));
+      o.ret = (w == 0 ? lib[alg] : ref[alg])(p, q, r, c);
+      p.image(o.img); q.image(o.img); r.image(o.img); o.log = LOG;
+    }
+    judge<T>(ALGN[alg], N, idx, ol, orf, ALGMSG[alg]);
+  }
+  {  // copy through non-random-access iterators (the other overload set of copy<2..10>)
+    Obs ol, orf;
+    for (int w = 0; w < 2; ++w) {
+      std::list<T> src(c.va.begin(), c.va.begin() + N), dst;
+      for (unsigned k = 0; k < N + 3; ++k) dst.push_back(X::guard(int(k)));
+      Obs& o = w == 0 ? ol : orf;
+      o.ret = w == 0 ? lib_list(src, dst) : uint64_t(std::distance(dst.begin(), std::copy(src.cbegin(), src.cend(), dst.begin())));
       for (auto& x : dst) o.img.push_back(X::bits(x));
       for (auto& x : src) o.img.push_back(X::bits(x));
     }
     judge<T>("copy/list-iterators", N, idx, ol, orf);
   }
-  // ---- fill
-  versus<T>("fill", N, idx, prep,
-            [&](Buf<T>& p, Buf<T>&, Buf<T>&) { fsa::fill<N>::exe(p.data(), init); return 0; },
-            [&](Buf<T>& p, Buf<T>&, Buf<T>&) { std::fill(p.data(), p.data() + N, init); return 0; });
-  // ---- transform
-  versus<T>("transform(unary)", N, idx, prep,
-            [&](Buf<T>& p, Buf<T>& q, Buf<T>&) { return off(fsa::transform<N>::exe(static_cast<const T*>(p.data()), q.data(), U), q); },
-            [&](Buf<T>& p, Buf<T>& q, Buf<T>&) { return off(std::transform(static_cast<const T*>(p.data()), static_cast<const T*>(p.data()) + N, q.data(), U), q); });
-  versus<T>("transform(unary)/in-place", N, idx, prep,
-            [&](Buf<T>& p, Buf<T>&, Buf<T>&) { return off(fsa::transform<N>::exe(p.data(), p.data(), U), p); },
-            [&](Buf<T>& p, Buf<T>&, Buf<T>&) { return off(std::transform(p.data(), p.data() + N, p.data(), U), p); });
-  versus<T>("transform(binary)", N, idx, prep,
-            [&](Buf<T>& p, Buf<T>& q, Buf<T>& r) { return off(fsa::transform<N>::exe(static_cast<const T*>(p.data()), static_cast<const T*>(q.data()), r.data(), B), r); },
-            [&](Buf<T>& p, Buf<T>& q, Buf<T>& r) { return off(std::transform(static_cast<const T*>(p.data()), static_cast<const T*>(p.data()) + N, static_cast<const T*>(q.data()), r.data(), B), r); });
-  // ---- accumulate
-  versus<T>("accumulate(+)", N, idx, prep,
-            [&](Buf<T>& p, Buf<T>&, Buf<T>&) { return X::bits(fsa::accumulate<N>::exe(static_cast<const T*>(p.data()), init)); },
-            [&](Buf<T>& p, Buf<T>&, Buf<T>&) { return X::bits(std::accumulate(static_cast<const T*>(p.data()), static_cast<const T*>(p.data()) + N, init)); },
-            "std::accumulate computes acc + *it");
-  versus<T>("accumulate(op):std-argument-order", N, idx, prep,
-            [&](Buf<T>& p, Buf<T>&, Buf<T>&) { return X::bits(fsa::accumulate<N>::exe(static_cast<const T*>(p.data()), init, B)); },
-            [&](Buf<T>& p, Buf<T>&, Buf<T>&) { return X::bits(std::accumulate(static_cast<const T*>(p.data()), static_cast<const T*>(p.data()) + N, init, B)); },
-            "same functor handed to both; std::accumulate calls op(acc, *it)");
-  versus<T>("accumulate(op):element-first", N, idx, prep,
-            [&](Buf<T>& p, Buf<T>&, Buf<T>&) { return X::bits(fsa::accumulate<N>::exe(static_cast<const T*>(p.data()), init, B)); },
-            [&](Buf<T>& p, Buf<T>&, Buf<T>&) { return X::bits(std::accumulate(static_cast<const T*>(p.data()), static_cast<const T*>(p.data()) + N, init, [&](const T& acc, const T& x) { return B(x, acc); })); },
-            "std gets op with swapped arguments (the convention documented in accumulate.hxx)");
-  // ---- inner_product
-  versus<T>("inner_product(+,*)", N, idx, prep,
-            [&](Buf<T>& p, Buf<T>& q, Buf<T>&) { return X::bits(fsa::inner_product<N>::exe(static_cast<const T*>(p.data()), static_cast<const T*>(q.data()), init)); },
-            [&](Buf<T>& p, Buf<T>& q, Buf<T>&) { return X::bits(std::inner_product(static_cast<const T*>(p.data()), static_cast<const T*>(p.data()) + N, static_cast<const T*>(q.data()), init)); });
-  versus<T>("inner_product(op1,op2)", N, idx, prep,
-            [&](Buf<T>& p, Buf<T>& q, Buf<T>&) { return X::bits(fsa::inner_product<N>::exe(static_cast<const T*>(p.data()), static_cast<const T*>(q.data()), init, B, B2)); },
-            [&](Buf<T>& p, Buf<T>& q, Buf<T>&) { return X::bits(std::inner_product(static_cast<const T*>(p.data()), static_cast<const T*>(p.data()) + N, static_cast<const T*>(q.data()), init, B, B2)); });
-  if constexpr (N >= 1) {  // no-init overload: first product is the initial value (no std counterpart for N=0: T{})
-    versus<T>("inner_product<T>(no init)", N, idx, prep,
-              [&](Buf<T>& p, Buf<T>& q, Buf<T>&) { return X::bits(fsa::inner_product<N>::template exe<T>(static_cast<const T*>(p.data()), static_cast<const T*>(q.data()))); },
-              [&](Buf<T>& p, Buf<T>& q, Buf<T>&) { const T* pp = p.data(); const T* qq = q.data(); const T i0 = pp[0] * qq[0]; return X::bits(std::inner_product(pp + 1, pp + N, qq + 1, i0)); });
-  }
-  // ---- equal
-  auto prep_eq = [&](Buf<T>& p, Buf<T>& q, Buf<T>& r) {
-    prep(p, q, r);
-    for (unsigned k = 0; k < N; ++k) q.data()[k] = va[k];
-    if (kdiff >= 0) q.data()[kdiff] = X::f1(va[size_t(kdiff)]);
-  };
-  versus<T>("equal(==)", N, idx, prep_eq,
-            [&](Buf<T>& p, Buf<T>& q, Buf<T>&) { return uint64_t(fsa::equal<N>::exe(static_cast<const T*>(p.data()), static_cast<const T*>(q.data()))); },
-            [&](Buf<T>& p, Buf<T>& q, Buf<T>&) { return uint64_t(std::equal(static_cast<const T*>(p.data()), static_cast<const T*>(p.data()) + N, static_cast<const T*>(q.data()))); });
-  versus<T>("equal(pred)", N, idx, prep_eq,
-            [&](Buf<T>& p, Buf<T>& q, Buf<T>&) { return uint64_t(fsa::equal<N>::exe(static_cast<const T*>(p.data()), static_cast<const T*>(q.data()), EQ)); },
-            [&](Buf<T>& p, Buf<T>& q, Buf<T>&) { return uint64_t(std::equal(static_cast<const T*>(p.data()), static_cast<const T*>(p.data()) + N, static_cast<const T*>(q.data()), EQ)); });
-  // ---- for_each (mutating, logging functor)
-  {
-    auto F = [](T& x) { lg('f', X::bits(x), 0); x = X::f1(x); };
-    versus<T>("for_each", N, idx, prep,
-              [&](Buf<T>& p, Buf<T>&, Buf<T>&) { fsa::for_each<N>::exe(p.data(), F); return 0; },
-              [&](Buf<T>& p, Buf<T>&, Buf<T>&) { std::for_each(p.data(), p.data() + N, F); return 0; });
-  }
-  // ---- generate (stateful generator taken by value, as std::generate)
-  {
-    struct Gen { uint64_t s; T operator()() { s = s * 6364136223846793005ull + 1442695040888963407ull; lg('g', s, 0); return X::from(s >> 20); } };
-    const Gen g0{g.u64()};
-    versus<T>("generate", N, idx, prep,
-              [&](Buf<T>& p, Buf<T>&, Buf<T>&) { fsa::generate<N>::exe(p.data(), g0); return 0; },
-              [&](Buf<T>& p, Buf<T>&, Buf<T>&) { std::generate(p.data(), p.data() + N, g0); return 0; });
-  }
-  // ---- iota
-  versus<T>("iota", N, idx, prep,
-            [&](Buf<T>& p, Buf<T>&, Buf<T>&) { fsa::iota<N>::exe(p.data(), init); return 0; },
-            [&](Buf<T>& p, Buf<T>&, Buf<T>&) { std::iota(p.data(), p.data() + N, init); return 0; });
-  // ---- min / max element
-  versus<T>("min_element(<)", N, idx, prep,
-            [&](Buf<T>& p, Buf<T>&, Buf<T>&) { return off(fsa::min_element<N>::exe(static_cast<const T*>(p.data())), p); },
-            [&](Buf<T>& p, Buf<T>&, Buf<T>&) { return off(std::min_element(static_cast<const T*>(p.data()), static_cast<const T*>(p.data()) + N), p); });
-  versus<T>("min_element(comp)", N, idx, prep,
-            [&](Buf<T>& p, Buf<T>&, Buf<T>&) { return off(fsa::min_element<N>::exe(static_cast<const T*>(p.data()), LESS), p); },
-            [&](Buf<T>& p, Buf<T>&, Buf<T>&) { return off(std::min_element(static_cast<const T*>(p.data()), static_cast<const T*>(p.data()) + N, LESS), p); });
-  if constexpr (!std::is_same_v<T, E>) {
-    // (for the struct type '>' and '<' are distinct logged operators: the call logs differ by
-    //  construction, only the position can be compared — done below without the log)
-    versus<T>("max_element(>)", N, idx, prep,
-              [&](Buf<T>& p, Buf<T>&, Buf<T>&) { return off(fsa::max_element<N>::exe(static_cast<const T*>(p.data())), p); },
-              [&](Buf<T>& p, Buf<T>&, Buf<T>&) { return off(std::max_element(static_cast<const T*>(p.data()), static_cast<const T*>(p.data()) + N), p); });
-  } else {
-    versus<T>("max_element(>)", N, idx, prep,
-              [&](Buf<T>& p, Buf<T>&, Buf<T>&) { auto r = off(fsa::max_element<N>::exe(static_cast<const T*>(p.data())), p); LOG.clear(); return r; },
-              [&](Buf<T>& p, Buf<T>&, Buf<T>&) { auto r = off(std::max_element(static_cast<const T*>(p.data()), static_cast<const T*>(p.data()) + N), p); LOG.clear(); return r; });
-  }
-  versus<T>("max_element(comp):std-comparator-meaning", N, idx, prep,
-            [&](Buf<T>& p, Buf<T>&, Buf<T>&) { return off(fsa::max_element<N>::exe(static_cast<const T*>(p.data()), LESS), p); },
-            [&](Buf<T>& p, Buf<T>&, Buf<T>&) { return off(std::max_element(static_cast<const T*>(p.data()), static_cast<const T*>(p.data()) + N, LESS), p); },
-            "same 'less' comparator handed to both; std::max_element(first,last,comp) evaluates comp(best, *it)");
-  versus<T>("max_element(comp):element-first", N, idx, prep,
-            [&](Buf<T>& p, Buf<T>&, Buf<T>&) { return off(fsa::max_element<N>::exe(static_cast<const T*>(p.data()), [&](const T& x, const T& y) { return LESS(y, x); }), p); },
-            [&](Buf<T>& p, Buf<T>&, Buf<T>&) { return off(std::max_element(static_cast<const T*>(p.data()), static_cast<const T*>(p.data()) + N, LESS), p); },
-            "fsalgo gets comp(new, best) = less(best, new): the convention used inside TFEL (abs_max, eigen-solvers)");
-  // ---- swap_ranges
-  versus<T>("swap_ranges", N, idx, prep,
-            [&](Buf<T>& p, Buf<T>& q, Buf<T>&) { return off(fsa::swap_ranges<N>::exe(p.data(), q.data()), q); },
-            [&](Buf<T>& p, Buf<T>& q, Buf<T>&) { return off(std::swap_ranges(p.data(), p.data() + N, q.data()), q); });
 }
 
 template <typename T, unsigned... Is>
 static void sizes(const vf::Args& a, uint64_t idx, std::integer_sequence<unsigned, Is...>) {
-  (all<Is, T>(a, idx), ...);
+  (run_case<T>(a, idx, Is, Lib<Is, T>::table(), &Lib<Is, T>::copy_list), ...);
 }
 
-#ifndef C18_TYPE
-#define C18_TYPE 0
-#endif
+template <typename T>
+static void loop(const vf::Args& a) {
+  for (long i = 0; i < a.cases; ++i) {
+    const uint64_t idx = a.only >= 0 ? uint64_t(a.only) : a.gidx(i);
+    sizes<T>(a, idx, std::make_integer_sequence<unsigned, 65>{});
+    if (a.only >= 0) break;
+  }
+}
 
 int main(int argc, char** argv) {
   vf::Args a(argc, argv);
   R.viol_cap = 2;
-  for (long i = 0; i < a.cases; ++i) {
-    const uint64_t idx = a.only >= 0 ? uint64_t(a.only) : a.gidx(i);
-#if C18_TYPE == 0
-    sizes<int>(a, idx, std::make_integer_sequence<unsigned, 65>{});
-#elif C18_TYPE == 1
-    sizes<double>(a, idx, std::make_integer_sequence<unsigned, 65>{});
-#else
-    sizes<E>(a, idx, std::make_integer_sequence<unsigned, 65>{});
-#endif
-    if (a.only >= 0) break;
-  }
+  const std::string t = a.get("--type", "all");
+  if (t == "all" || t == "int") loop<int>(a);
+  if (t == "all" || t == "double") loop<double>(a);
+  if (t == "all" || t == "struct") loop<E>(a);
   R.finish();
   return 0;
 }
